@@ -269,7 +269,10 @@ static int record(int argc, char **argv)
     // ---- A. one pool of parameter points per branch case of the model (Dubins, forward)
     std::map<std::string, std::vector<Rep>> pool;
     {
-        size_t want = cx.tb.word.size();
+        size_t want = 0;
+        for (auto &kv : cx.tb.word)
+            if (kv.first.compare(0, 3, "sym") != 0 && !cx.tb.excluded.count(kv.first))
+                ++want;
         long tries = 0;
         size_t full = 0;
         for (; tries < poolBudget && full < want; ++tries)
@@ -290,7 +293,7 @@ static int record(int argc, char **argv)
             if ((int)v.size() < K + 2)
             {
                 v.push_back(Rep{p, tr});
-                if ((int)v.size() == K + 2 && cx.tb.word.count(id))
+                if ((int)v.size() == K + 2 && cx.tb.word.count(id) && !cx.tb.excluded.count(id))
                     ++full;
             }
         }
@@ -322,11 +325,16 @@ static int record(int argc, char **argv)
             if (node == "sym")
                 continue;
             int found = 0;
-            for (int attempt = 0; attempt < 4000 && found < fanPerNode; ++attempt)
+            // pool points of two cases whose decisions first differ at this node
+            cand.clear();
+            for (const Rep *p : all)
+                for (const Rep *q : all)
+                    if (p < q && firstDiff(p->trail, q->trail) == node)
+                        cand.emplace_back(p, q);
+            for (int attempt = 0; attempt < 400 && found < fanPerNode && !cand.empty(); ++attempt)
             {
-                const Rep *p = all[g.rng.below((int)all.size())], *q = all[g.rng.below((int)all.size())];
-                if (firstDiff(p->trail, q->trail) != node)
-                    continue;
+                auto pq = cand[g.rng.below((int)cand.size())];
+                const Rep *p = pq.first, *q = pq.second;
                 P3 lo, hi;
                 std::vector<std::string> tlo, thi;
                 if (!bisect([&](const P3 &x) { return dkey(x, nullptr, nullptr); }, p->p, q->p, lo, hi))
@@ -515,6 +523,18 @@ static int record(int argc, char **argv)
                 meta.fam = "random-rs";
             }
             cx.pair(S, A, B, meta, "");
+            if (k % 4 < 2)
+            {
+                // the end point of a prefix of the reported curve as a target of its own: the degenerate geometry
+                // (a word with a zero-length last segment) every planner produces by interpolating
+                ob::StateSpace *sp = k % 4 == 0 ? (ob::StateSpace *)S.dub.get() : (ob::StateSpace *)S.rs.get();
+                St a(sp, A), b(sp, B), s(sp);
+                sp->interpolate(a.s, b.s, (1 + g.rng.below(7)) / 8.0, s.s);
+                meta.fam = k % 4 == 0 ? "prefix-target-dubins" : "prefix-target-rs";
+                Pose P = s.get();
+                if (std::isfinite(P.x) && std::isfinite(P.y) && std::isfinite(P.th))
+                    cx.pair(S, A, P, meta, "");
+            }
         }
     }
 
@@ -634,6 +654,29 @@ static int record(int argc, char **argv)
     return 0;
 }
 
+// how often each combination of the five running-minimum comparisons of dubinsExhaustive occurs over the short
+// region (oracle only, no library call): the evidence behind the list of excluded combinations
+static int scan(int argc, char **argv)
+{
+    Ctx cx(argv[2], vt::envSeed());
+    long n = atol(argv[3]);
+    std::map<std::string, long> cnt, interior;
+    for (long k = 0; k < n; ++k)
+    {
+        P3 p = cx.gen.dubins(k % 2 ? 2 : 3);
+        Pose A, B;
+        dubinsPair(p, 1.0, 0, 0, 0, A, B);
+        Branch br = dubinsBranch(canon(A, B, 1.0), cx.tb);
+        if (br.kind != "short")
+            continue;
+        ++cnt[br.id];
+        if (br.margin > 1e-3)
+            ++interior[br.id];
+    }
+    printf("SUMMARY %s\n", json{{"n", n}, {"any", mapJson(cnt)}, {"interior", mapJson(interior)}}.dump().c_str());
+    return 0;
+}
+
 static int one(int argc, char **argv)
 {
     if (argc < 11)
@@ -668,5 +711,7 @@ int main(int argc, char **argv)
         return record(argc, argv);
     if (mode == "one")
         return one(argc, argv);
+    if (mode == "scan")
+        return scan(argc, argv);
     return 2;
 }
